@@ -46,7 +46,7 @@ def register(reg):
             ('image-background-scalar-error', ('arr', 2, 'real'), 'real', 'background[i, j]',
              'error', ['background.shape == data.shape'])):
         reg.add(Contract(
-            target=D + 'detect_threshold', props=['C04'], stmt='threshold', tag=f'formula-{tag}',
+            target=D + 'detect_threshold', props=['C04', 'C15'], stmt='threshold', tag=f'formula-{tag}',
             stmt_like='np.broadcast_to(background, data.shape) + '
                       'np.broadcast_to(error * nsigma, data.shape)',
             params={'data': ('arr', 2, 'real', 'anydtype'), 'nsigma': 'real', 'background': bspec,
